@@ -1978,6 +1978,8 @@ func (db *DatabaseCollectionWithUser) ResyncDocument(ctx context.Context, docid 
 	var updatedDoc *Document
 	var updatedExpiry *uint32
 	var unusedSequences []uint64
+	// sequences assigned to the document by the attempts of the update callback so far (regenerateSequences only)
+	var assignedSequences []uint64
 	writeUpdateFunc := func(currentValue []byte, currentXattrs map[string][]byte, cas uint64) (sgbucket.UpdatedDoc, error) {
 		// resyncDocument is not called on tombstoned documents, so this value will only be empty if the document was
 		// deleted between DCP event and calling this function. In any case, we do not need to update it.
@@ -1991,6 +1993,15 @@ func (db *DatabaseCollectionWithUser) ResyncDocument(ctx context.Context, docid 
 		updatedDoc, unusedSequences, err = db.getResyncedDocument(ctx, doc, regenerateSequences)
 		if err != nil {
 			return sgbucket.UpdatedDoc{}, err
+		}
+		if regenerateSequences {
+			// On a CAS retry a new sequence has been assigned: the ones assigned by the previous attempts are carried by no
+			// document, so they are recorded on this one as unused (as a document write does).
+			if len(assignedSequences) > 0 {
+				unusedSequences = append(unusedSequences, assignedSequences...)
+				updatedDoc.UnusedSequences = unusedSequences
+			}
+			assignedSequences = append(assignedSequences, updatedDoc.Sequence)
 		}
 		base.TracefCtx(ctx, base.KeyAccess, "Saving updated channels and access grants of %q on resync", base.UD(docid))
 
@@ -2010,12 +2021,15 @@ func (db *DatabaseCollectionWithUser) ResyncDocument(ctx context.Context, docid 
 		}
 		return updatedDoc, err
 	}
-	db.releaseSequences(ctx, unusedSequences)
-
 	// these values are updated by the callback function
 	mutateInOpts := sgbucket.MutateInOptions{}
 	var expiry uint32
 	_, err := db.dataStore.WriteUpdateWithXattrs(ctx, docid, db.syncGlobalSyncMouRevSeqNoAndUserXattrKeys(), expiry, previousDoc, &mutateInOpts, writeUpdateFunc)
+	// If nothing was written, the sequences assigned by the attempts are carried by no document. For timeout errors the
+	// write may or may not have succeeded, so they cannot be released as unused.
+	if err != nil && !base.IsTimeoutError(err) {
+		db.releaseSequences(ctx, assignedSequences)
+	}
 	if err == nil {
 		base.Audit(ctx, base.AuditIDDocumentResync, base.AuditFields{
 			base.AuditFieldDocID:      docid,
